@@ -33,6 +33,18 @@ pub struct Codec {
     encoder: encoder::MessageEncoder<Response<()>>,
 }
 
+/// The part of the codec state that belongs to one request and is needed again when the response
+/// to that request is encoded (HEAD handling, protocol version, connection type).
+///
+/// With pipelining, later requests can be decoded before an earlier response is encoded, so the
+/// dispatcher captures this context per request and restores it before encoding.
+#[derive(Debug, Clone, Copy)]
+pub(crate) struct RequestContext {
+    head: bool,
+    version: Version,
+    conn_type: ConnectionType,
+}
+
 impl Default for Codec {
     fn default() -> Self {
         Codec::new(ServiceConfig::default())
@@ -102,6 +114,22 @@ impl Codec {
     #[inline]
     pub fn config(&self) -> &ServiceConfig {
         &self.config
+    }
+
+    /// Returns the encoding context of the most recently decoded request.
+    pub(crate) fn request_context(&self) -> RequestContext {
+        RequestContext {
+            head: self.flags.contains(Flags::HEAD),
+            version: self.version,
+            conn_type: self.conn_type,
+        }
+    }
+
+    /// Restores the encoding context of the request that is about to be answered.
+    pub(crate) fn set_request_context(&mut self, ctx: RequestContext) {
+        self.flags.set(Flags::HEAD, ctx.head);
+        self.version = ctx.version;
+        self.conn_type = ctx.conn_type;
     }
 }
 
